@@ -1,10 +1,14 @@
 """C05: solutions contain no extraneous solvables."""
 import vlib
-from props import solverstream as ss, tracecheck as tc
+from props import solverstream as ss, tracecheck as tc, antie
 
-THEOREMS = ["C05_oracle_correct", "C05_run_trail_legal", "C05_supported", "C05_trace_supported"]
+THEOREMS = ["C05_oracle_correct", "C05_run_trail_legal", "C05_supported", "C05_trace_supported",
+            "C05_propagate_sound", "C05_checked_propagate_sound", "C05_grows_justified", "C05_start_watching_keeps_invariant"]
 CHECKER = ("coqc Props/C05.v + Print Assumptions; harness solve_cases: (a) hook logs -> extracted check_sat_log (legal run, "
-           "theorem C05_trace_supported), (b) extracted o_supported on every solution")
+           "theorem C05_trace_supported), (b) extracted o_supported on every solution, (c) hook logs -> extracted check_propagates: "
+           "every call of Solver::propagate must make exactly the assignments (literal, level, reason clause, in order) of the "
+           "propagate model and end with the same conflict clause; the hypotheses of C05_propagate_sound (watch invariant, "
+           "duplicate-free trail, justified assertions) are evaluated at every call")
 
 
 def run(res, tier, seed, replay):
@@ -19,6 +23,12 @@ def run(res, tier, seed, replay):
         recs += r2
     ss.oracle_sat(recs)
     tc.annotate(recs)
+    antie.annotate_propagates(recs)
+    for r in recs:
+        if not antie.ok_propagates(r):
+            res.tie_break(f"propagate correspondence no longer checks for a run in {r['stream']}: a call of Solver::propagate made other "
+                          f"assignments (or in another order, with another reason) or ended differently than the model (Cdcl/Propagate.v), "
+                          f"or a hypothesis of C05_propagate_sound fails: {r['props']}", dict(tc.trace_replay(r), propagate=r["props"]))
     n, exempt_cases = 0, 0
     for r in recs:
         k = ss.outcome_kind(r["obs"]["outcome"])
@@ -42,5 +52,8 @@ def run(res, tier, seed, replay):
                               f"verdict {t}; the returned solution itself is supported", tc.trace_replay(r))
     res.rule = ("same streams as C01 (all feature masks incl. soft); every returned solution is judged by the "
                 "Coq-verified support procedure; non-trivial = solution with >= 2 solvables")
+    pp = [r["props"] for r in recs if "props" in r and "calls" in r["props"]]
+    res.extra.update({"runs_replayed_through_propagate_model": len(pp), "propagate_calls_compared": sum(x["calls"] for x in pp),
+                      "propagated_assignments_compared": sum(x["assigns"] for x in pp)})
     res.extra.update({"solutions_checked": n, "hangs": len(hangs), "soft_exemption_traces": exempt_cases}, **tc.stats(recs))
     return res.finish(CHECKER, vlib.TRUSTED_BASE, [])
